@@ -256,6 +256,9 @@ Error CodeHolder::init(const Environment& environment, const CpuFeatures& cpu_fe
   // Create a default section and insert it to the `_sections` array.
   Error err = CodeHolder_init_section_storage(this);
   if (ASMJIT_UNLIKELY(err != Error::kOk)) {
+    // One of the two vectors may have got its storage - it must not outlive the arena.
+    _sections.reset();
+    _sections_by_order.reset();
     _arena.reset();
     return make_error(Error::kOutOfMemory);
   }
@@ -277,7 +280,13 @@ Error CodeHolder::reinit() noexcept {
   CodeHolder_reset_sections_and_containers(this, ResetPolicy::kSoft);
 
   // Create a default section and insert it to the `_sections` array.
-  (void)CodeHolder_init_section_storage(this);
+  Error err = CodeHolder_init_section_storage(this);
+  if (ASMJIT_UNLIKELY(err != Error::kOk)) {
+    // Without the section storage the holder cannot be used - leave it uninitialized (detaches all emitters).
+    reset(ResetPolicy::kHard);
+    return make_error(Error::kOutOfMemory);
+  }
+
   CodeHolder_add_text_section(this);
 
   BaseEmitter* emitter = _attached_first;
